@@ -30,6 +30,10 @@ CLAIMED = {
                 text='export followed by import reproduces degrees, knot vectors, sizes, control points, weights, delta and trims and evaluates identically, for the dict/JSON layer, '
                      'smesh/vmesh files, txt and csv; the written files are also checked line by line against the documented ordering.',
                 note=_B_NOTE + ' A3: float(str(x)) == x; real json / real temp files are used; YAML, cfg and jinja2 paths are not run (packages absent).'),
+    'C12': dict(category='other', technique='class-invariant induction over contracts on every public mutator; per-shape exhaustive symbolic execution (symx)',
+                text='Inv(o): every derived view equals that of a fresh object built from o\'s definition. {Inv} m {Inv} is checked for every public mutator from both cache states '
+                     '(empty / every view read), readers preserve Inv, deep copies are disjoint and independent: unbounded in the history by induction, bounded in the shape (8 classes + 3 containers).',
+                note=_B_NOTE),
 }
 
 _TODO = 'check not built yet in this revision (work in progress; see DESIGN.md section 7 for the planned contract)'
